@@ -195,7 +195,11 @@ int main()
                 DimensionReductionMethod m = KernelLocallyLinearEmbedding;
                 if (meth == "ltsa") m = KernelLocalTangentSpaceAlignment;
                 if (meth == "hlle") m = HessianLocallyLinearEmbedding;
-                // (1) neighbours, as ImplementationBase::find_neighbors_with does
+                // (1) neighbours, as ImplementationBase::find_neighbors_with does.  The VP-tree draws its
+                //     vantage points from std::rand(): the same seed before (1) and (4) makes both calls
+                //     build the same tree, hence break distance ties the same way (which neighbour set is
+                //     taken among ties is free under the property)
+                std::srand(20260926u + 7919u * static_cast<unsigned>(kcase));
                 if (k >= 3 && k < n)
                 {
                     tapkee_internal::KernelDistance<Idx::iterator, table_kernel> kd(kcb);
@@ -225,6 +229,7 @@ int main()
                 //     Only these three of the twenty implementation classes are instantiated:
                 //     instantiating all of them through chain_interface.hpp costs 2.5 minutes of
                 //     compile time per run; the generic dispatcher is exercised by C01/C13/C14.
+                std::srand(20260926u + 7919u * static_cast<unsigned>(kcase));
                 stichwort::ParametersSet parameters =
                     (method = m, target_dimension = d, num_neighbors = k, eigen_method = Dense,
                      neighbors_method = nmeth, nullspace_shift = shift, klle_shift = tshift,
